@@ -109,6 +109,23 @@ def run(tier):
                     check.violation({"class": "trivia-makes-program-invalid" if r.get("nerr", 1) > 0 else "trivia-changes-structure", "recipe": name,
                                      "construct": "semicolon-close-tag", "comment": any(c in v[len("<?php " + body):] for c in ("/*", "//", "#"))},
                                     {"minimal": base, "rendered": v, "ver": ver, "errors": r.get("errs")})
+    # blanks between "<<<" and the label of a heredoc / nowdoc opener are white space too
+    for ver in ("7.4", "5.6"):
+        for q in ("", '"', "'"):
+            for pre in ("", "b", "B"):
+                body = " t $x {$y} ${z} $a[1] $b->c \\n\n"
+                mk = lambda blank: "<?php $r = %s<<<%s%sLBL%s\n%sLBL;\n$s = 2;\n" % (pre, blank, q, q, body)
+                rs = wp.run([{"op": "cmp_tree", "src": mk(bl), "ver": ver} for bl in ("", " ", "\t", "  \t ")])
+                b = rs[0]
+                if b.get("panic") or b.get("hang") or b.get("crash") or b.get("nerr", 1) > 0:
+                    continue
+                for bl, r in zip((" ", "\t", "  \t "), rs[1:]):
+                    check.count()
+                    if r.get("panic") or r.get("hang") or r.get("crash"):
+                        continue
+                    if r.get("nerr", 1) > 0 or r.get("sfp") != b.get("sfp"):
+                        check.violation({"class": "trivia-makes-program-invalid" if r.get("nerr", 1) > 0 else "trivia-changes-structure", "recipe": "blank-in-heredoc-opener",
+                                         "construct": "heredoc-opener", "quote": q}, {"minimal": mk(""), "rendered": mk(bl), "ver": ver, "errors": r.get("errs")})
     check.cov["recipes"] = recipes
     check.cov["traces_validated_against_impl"] = check.cov["evaluations"]
     check.assumptions += ["gaps where PHP permits trivia = all token boundaries of Syntax.tla except those marked glue (string bodies, name separators, short ternary)",
